@@ -109,7 +109,8 @@ def outsiders(pg, expected, jumps):
     return out[:8]
 
 
-def check(case):
+def check(case, exclude=None):
+    """exclude=None: follow the module flag; False: assert the full property (replays, known-finding witnesses)"""
     from onsager import crystalStars as stars
     crys, chem, sl, jn, pg, jcl, where = pairs.prepare(case)
     classes = cs.describe(crys)
@@ -149,7 +150,7 @@ def check(case):
     n2 = N - n1
     full_n1 = pg.reachable(jumps, max(n1, n2), origin) if max(n1, n2) > 0 else set()
     grows = len(expected) > len(full_n1) or min(n1, n2) == 0
-    if not grows and EXCLUDE_NOGROWTH:
+    if not grows and (EXCLUDE_NOGROWTH if exclude is None else exclude):
         classes.append("sum_adds_no_state(excluded)")
     else:
         a, b = fresh(n1), fresh(n2)
@@ -216,13 +217,19 @@ def catalogue_cases():
 
 
 def run(ctx):
-    ctx.corpus(check)
+    def chk(case):
+        info = check(case)
+        if "sum_adds_no_state(excluded)" in info.get("classes", ()):
+            ctx.exclude("C24-add-no-new-state")
+        return info
+    ctx.corpus(chk)
+    ctx.known(lambda case: check(case, exclude=False))
     base = catalogue_cases()
     if ctx.quick:
         base = [c for c in base if c["N"] <= 2]
-    ctx.cases([c for i, c in enumerate(base) if ctx.mine(i)], check, label="catalogue")
-    ctx.given(cases(), check, quick=200, thorough=6000)
+    ctx.cases([c for i, c in enumerate(base) if ctx.mine(i)], chk, label="catalogue")
+    ctx.given(cases(), chk, quick=200, thorough=6000)
 
 
 def replay(case):
-    check(case)
+    check(case, exclude=False)
